@@ -1149,4 +1149,280 @@ example : (match exScan3.getitem (.slice (.str "100ns") (.str "-50ns") false) []
         w.tStop = firstTimestamp + 600)
     | _ => false) = true := by decide +kernel
 
+/-! ## Compositions at the level of views -/
+
+/-- **Crop of a crop.**  Two successive `crop_by_distance` calls show the rows the index arithmetic of the two row
+    windows gives (`crop_crop`), keep the pixel size, and the position offsets add up. -/
+theorem crop_crop_view (v w u : KView) (lo1 hi1 lo2 hi2 : Rat) (h1l : 0 ≤ lo1) (h1h : 0 ≤ hi1) (h2l : 0 ≤ lo2)
+    (h2h : 0 ≤ hi2) (hpx : 0 < v.px) (hw : v.crop lo1 hi1 = .view w) (hu : w.crop lo2 hi2 = .view u) :
+    u.img = (v.img.take (min (hi1 / v.px).ceil.toNat ((lo1 / v.px).floor.toNat + (hi2 / v.px).ceil.toNat))).drop
+      ((lo1 / v.px).floor.toNat + (lo2 / v.px).floor.toNat) ∧
+    u.px = v.px ∧
+    u.offset = v.offset + (((lo1 / v.px).floor + (lo2 / v.px).floor : Int) : Rat) * v.px := by
+  have c1 := crop_rows v lo1 hi1 h1l h1h hpx
+  simp only [hw] at c1
+  obtain ⟨_, _, hwi, _, hwp, hwo⟩ := c1
+  have c2 := crop_rows w lo2 hi2 h2l h2h (by rw [hwp]; exact hpx)
+  simp only [hu] at c2
+  obtain ⟨_, _, hui, _, hup, huo⟩ := c2
+  rw [hwp] at hui hup huo
+  refine ⟨?_, hup, ?_⟩
+  · rw [hui, hwi]; exact crop_crop v.img _ _ _ _
+  · rw [huo, hwo, Rat.intCast_add, Rat.add_mul, Rat.add_assoc]
+
+/-- non-vacuity of `crop_crop_view` -/
+example : (match exKymo.crop 0 2 with
+    | .view w => (match w.crop 1 2 with | .view u => decide (values u.img = [[4, 5, 6]]) | _ => false)
+    | _ => false) = true := by decide +kernel
+
+/-- **Flip of a flip** shows the photon counts of the original. -/
+theorem flip_flip_view (v : KView) (n : Nat) (hr : Rect v.img n) :
+    (match v.flip with
+     | .view w => (match w.flip with | .view u => values u.img = values v.img | _ => False)
+     | _ => False) := by
+  have h1 := flip_rows v n hr
+  cases hf : v.flip with
+  | view w =>
+    rw [hf] at h1
+    simp only
+    have hrw : Rect w.img n := by
+      unfold KView.flip at hf
+      injection hf with hf
+      rw [← hf]
+      intro r hrm
+      simp only at hrm
+      obtain ⟨k, hk, rfl⟩ := List.mem_iff_getElem.mp hrm
+      simp only [List.getElem_zipWith, List.length_zipWith]
+      simp only [List.length_zipWith, List.length_reverse, Nat.min_self] at hk
+      rw [hr _ (List.getElem_mem _), hr _ (List.mem_reverse.mp (List.getElem_mem _))]; simp
+    have h2 := flip_rows w n hrw
+    cases hf2 : w.flip with
+    | view u =>
+      rw [hf2] at h2
+      simp only
+      rw [h2.1, h1.1, List.reverse_reverse]
+    | empty => rw [hf2] at h2; exact h2
+    | err e => rw [hf2] at h2; exact h2
+  | empty => rw [hf] at h1; exact h1
+  | err e => rw [hf] at h1; exact h1
+
+/-- **Slice of a slice of frames / rows / columns, any bounds** (negative, `None`, out of range): the composition of two
+    Python slices is the window computed by index arithmetic on the normalised bounds. -/
+theorem pySliceOpt_pySliceOpt {α} (l : List α) (a b c d : Option Int) :
+    pySliceOpt (pySliceOpt l a b) c d =
+      let l1 := pyNorm l.length (a.getD 0)
+      let u1 := pyNorm l.length (b.getD l.length)
+      let m := (pySliceOpt l a b).length
+      (l.take (min u1 (l1 + pyNorm m (d.getD m)))).drop (l1 + pyNorm m (c.getD 0)) := by
+  simp only [pySliceOpt, pySlice]
+  exact crop_crop l _ _ _ _
+
+/-- **Line time of a time slice.**  When the lines of the kymograph start `T` ns apart, every time slice that shows at
+    least two lines reports the line time `T`; a slice of a single line reports the bare scan time of one line (there is
+    no second line to measure a period from). -/
+theorem slice_line_time (v : KView) (hu : v.processed = false) (hd : v.rangesDefined = true) (T : Int)
+    (hT : ∀ k (h : k + 1 < (lineRanges v.img v.delta).length),
+      (lineRanges v.img v.delta)[k + 1].1 - (lineRanges v.img v.delta)[k].1 = T)
+    (a b : Int) (w : KView) (hw : v.sliceTime a b = .view w) :
+    (searchsortedLeft (starts v) a + 2 ≤ searchsortedLeft (starts v) b → w.lineTimeNs = (T : Rat)) ∧
+    (searchsortedLeft (starts v) b = searchsortedLeft (starts v) a + 1 → w.lineTimeNs = v.scanTimeNs) := by
+  have hle : searchsortedLeft (starts v) b ≤ (lineRanges v.img v.delta).length := by
+    have := searchsortedLeft_le_length (starts v) b
+    simpa [starts] using this
+  have hlt : w.lineTimeNs = (match ((lineRanges v.img v.delta).take (searchsortedLeft (starts v) b)).drop
+        (searchsortedLeft (starts v) a) with
+      | r0 :: r1 :: _ => ((r1.1 - r0.1 : Int) : Rat)
+      | _ => v.scanTimeNs) := by
+    unfold KView.sliceTime at hw
+    simp only [hu, Bool.false_eq_true, ↓reduceIte, KView.ranges, hd] at hw
+    split at hw
+    · cases hw
+    · split at hw
+      · cases hw
+      · injection hw with hw
+        subst hw
+        rfl
+  generalize searchsortedLeft (starts v) a = i at *
+  generalize searchsortedLeft (starts v) b = j at *
+  constructor
+  · intro h2
+    have hl : (((lineRanges v.img v.delta).take j).drop i) = (lineRanges v.img v.delta)[i] :: (lineRanges v.img v.delta)[i + 1] :: ((lineRanges v.img v.delta).take j).drop (i + 2) := by
+      have l1 : i < ((lineRanges v.img v.delta).take j).length := by simp; omega
+      have l2 : i + 1 < ((lineRanges v.img v.delta).take j).length := by simp; omega
+      rw [List.drop_eq_getElem_cons l1, List.drop_eq_getElem_cons l2]
+      simp [List.getElem_take]
+    rw [hlt, hl]
+    simp only
+    rw [hT i (by omega)]
+  · intro h1
+    have hl : (((lineRanges v.img v.delta).take j).drop i) = [(lineRanges v.img v.delta)[i]] := by
+      have l1 : i < ((lineRanges v.img v.delta).take j).length := by simp; omega
+      rw [List.drop_eq_getElem_cons l1]
+      have : ((lineRanges v.img v.delta).take j).drop (i + 1) = [] := by
+        apply List.drop_eq_nil_of_le; simp; omega
+      simp [this, List.getElem_take]
+    rw [hlt, hl]
+
+/-- non-vacuity: the three lines of `exKymo` start 100 ns apart; `kymo[150:]` shows two of them and reports 100 ns -/
+example : (match exKymo.sliceTime 150 1000 with | .view w => decide (w.lineTimeNs = 100 ∧ w.numLines = 2) | _ => false) = true := by
+  decide +kernel
+
+/-! ## Down-sampling: the timestamps of a block -/
+
+/-- `m` is the extreme element of `xs` for the order `R` (`≤`: the smallest, `≥`: the largest) -/
+def IsExtr (R : Int → Int → Prop) (m : Int) (xs : List Int) : Prop := (∀ x ∈ xs, R m x) ∧ m ∈ xs
+
+/-- a component of a pixel that `Pix.add` combines with a selecting operation (`tmin` with `min`, `tmax` with `max`) -/
+structure Sel (R : Int → Int → Prop) (g : Pix → Int) (op : Int → Int → Int) : Prop where
+  add : ∀ a b, g (Pix.add a b) = op (g a) (g b)
+  sel : ∀ a b, op a b = a ∨ op a b = b
+  le : ∀ a b, R (op a b) a ∧ R (op a b) b
+  refl : ∀ a, R a a
+  trans : ∀ a b c, R a b → R b c → R a c
+
+theorem selMin : Sel (· ≤ ·) (·.tmin) min :=
+  ⟨fun _ _ => rfl, fun a b => by omega, fun a b => by omega, fun a => Int.le_refl a, fun _ _ _ => Int.le_trans⟩
+
+theorem selMax : Sel (· ≥ ·) (·.tmax) max :=
+  ⟨fun _ _ => rfl, fun a b => by omega, fun a b => by omega, fun a => Int.le_refl a, fun _ _ _ h1 h2 => Int.le_trans h2 h1⟩
+
+variable {R : Int → Int → Prop} {g : Pix → Int} {op : Int → Int → Int}
+
+theorem foldl_add_extr (S : Sel R g op) (ps : List Pix) (p : Pix) :
+    IsExtr R (g (ps.foldl Pix.add p)) (g p :: ps.map g) := by
+  induction ps generalizing p with
+  | nil => exact ⟨fun x hx => by simp at hx; rw [hx]; exact S.refl _, by simp⟩
+  | cons q qs ih =>
+    have h := ih (Pix.add p q)
+    rw [S.add] at h
+    simp only [List.foldl_cons, List.map_cons]
+    constructor
+    · intro x hx
+      simp only [List.mem_cons] at hx
+      rcases hx with rfl | rfl | hx
+      · exact S.trans _ _ _ (h.1 (op (g p) (g q)) (by simp)) (S.le (g p) (g q)).1
+      · exact S.trans _ _ _ (h.1 (op (g p) (g q)) (by simp)) (S.le (g p) (g q)).2
+      · exact h.1 x (by simp [hx])
+    · have := h.2
+      simp only [List.mem_cons] at this ⊢
+      rcases this with h0 | h0
+      · rcases S.sel (g p) (g q) with e | e <;> rw [e] at h0 <;> simp [h0]
+      · exact Or.inr (Or.inr h0)
+
+theorem sumPix_extr (S : Sel R g op) (l : List Pix) (hl : l ≠ []) : IsExtr R (g (sumPix l)) (l.map g) := by
+  cases l with
+  | nil => exact absurd rfl hl
+  | cons p ps => exact foldl_add_extr S ps p
+
+/-- the values of `g` on the pixels `k ≤ c < k + t` of a row -/
+def winG (g : Pix → Int) (k t : Nat) (r : List Pix) : List Int := ((r.drop k).take t).map g
+
+theorem winG_zipWith (S : Sel R g op) (k t : Nat) (a b : List Pix) :
+    winG g k t (List.zipWith Pix.add a b) = List.zipWith op (winG g k t a) (winG g k t b) := by
+  unfold winG
+  rw [List.drop_zipWith, List.take_zipWith, List.map_zipWith, List.zipWith_map]
+  congr 1
+  funext x y
+  exact S.add x y
+
+theorem extr_zipWith (S : Sel R g op) (m : Int) (A B C : List Int) (hlen : A.length = B.length)
+    (h : IsExtr R m (List.zipWith op A B ++ C)) : IsExtr R m (A ++ (B ++ C)) := by
+  constructor
+  · intro x hx
+    simp only [List.mem_append] at hx
+    rcases hx with hx | hx | hx
+    · obtain ⟨c, hc, rfl⟩ := List.mem_iff_getElem.mp hx
+      have hz : op A[c] (B[c]'(by omega)) ∈ List.zipWith op A B ++ C := by
+        apply List.mem_append_left
+        apply List.mem_iff_getElem.mpr
+        exact ⟨c, by simp; omega, by simp⟩
+      exact S.trans _ _ _ (h.1 _ hz) (S.le _ _).1
+    · obtain ⟨c, hc, rfl⟩ := List.mem_iff_getElem.mp hx
+      have hz : op (A[c]'(by omega)) B[c] ∈ List.zipWith op A B ++ C := by
+        apply List.mem_append_left
+        apply List.mem_iff_getElem.mpr
+        exact ⟨c, by simp; omega, by simp⟩
+      exact S.trans _ _ _ (h.1 _ hz) (S.le _ _).2
+    · exact h.1 x (by simp [hx])
+  · have := h.2
+    simp only [List.mem_append] at this ⊢
+    rcases this with h0 | h0
+    · obtain ⟨c, hc, e⟩ := List.mem_iff_getElem.mp h0
+      simp only [List.length_zipWith] at hc
+      simp only [List.getElem_zipWith] at e
+      rcases S.sel (A[c]'(by omega)) (B[c]'(by omega)) with e' | e'
+      · left; rw [← e, e']; exact List.getElem_mem _
+      · right; left; rw [← e, e']; exact List.getElem_mem _
+    · exact Or.inr (Or.inr h0)
+
+theorem foldl_zipWith_extr (S : Sel R g op) (k t n : Nat) (m : Int) (rs : List (List Pix)) (hr : Rect rs n)
+    (acc : List Pix) (ha : acc.length = n) (C : List Int)
+    (h : IsExtr R m (winG g k t (rs.foldl (fun acc x => List.zipWith Pix.add acc x) acc) ++ C)) :
+    IsExtr R m (winG g k t acc ++ (rs.flatMap (winG g k t) ++ C)) := by
+  induction rs generalizing acc C with
+  | nil => simpa using h
+  | cons x xs ih =>
+    have hx : x.length = n := hr x (by simp)
+    have hl : (List.zipWith Pix.add acc x).length = n := by simp [ha, hx]
+    have h1 := ih (fun r hrm => hr r (by simp [hrm])) (List.zipWith Pix.add acc x) hl C h
+    rw [winG_zipWith S] at h1
+    have h2 := extr_zipWith S m _ _ _ (by simp [winG, ha, hx]) h1
+    simpa [List.flatMap_cons, List.append_assoc] using h2
+
+/-- **Timestamps of a binned pixel.**  Each entry of the down-sampled image carries, as its first timestamp, the
+    smallest first timestamp found among ALL pixels of its two-dimensional block (it is one of them, and none is
+    smaller), and as its last timestamp the largest last timestamp of the block — the quantities the line ranges of a
+    position-binned kymograph are made of. -/
+theorem down_entry_timestamps (img : Img) (n : Nat) (hr : Rect img n) (pf tf : Nat) (hpf : 0 < pf) (htf : 0 < tf) (i : Nat)
+    (hi : i < (blockReduce img pf tf).length) (j : Nat) (hj : j < ((blockReduce img pf tf)[i]).length) :
+    IsExtr (· ≤ ·) (((blockReduce img pf tf)[i])[j]).tmin ((block2d ((img.drop (i * pf)).take pf) tf j).map (·.tmin)) ∧
+    IsExtr (· ≥ ·) (((blockReduce img pf tf)[i])[j]).tmax ((block2d ((img.drop (i * pf)).take pf) tf j).map (·.tmax)) := by
+  have hi' : i < img.length / pf := by rw [← down_shape img pf tf hpf]; exact hi
+  obtain ⟨hrow, hchunk⟩ := down_entry img pf tf hpf htf i hi
+  have hshape := (down_entry_sum img n hr pf tf hpf htf i hi).1
+  have hmul : i * pf + pf ≤ img.length := by
+    have := Nat.div_mul_le_self img.length pf
+    have : (i + 1) * pf ≤ img.length / pf * pf := Nat.mul_le_mul_right pf (by omega)
+    rw [Nat.add_mul] at this; omega
+  have hbl : ((img.drop (i * pf)).take pf).length = pf := by simp; omega
+  have hbr : Rect ((img.drop (i * pf)).take pf) n := fun r hrm => hr r (List.mem_of_mem_drop (List.mem_of_mem_take hrm))
+  generalize hband : (img.drop (i * pf)).take pf = band at *
+  cases band with
+  | nil => simp at hbl; omega
+  | cons r0 rs =>
+    have h0 : r0.length = n := hbr r0 (by simp)
+    have hrs : Rect rs n := fun r hrm => hbr r (by simp [hrm])
+    have hlen : (addRows (r0 :: rs)).length = n := (foldl_zipWith_spec 0 0 n rs hrs r0 h0).1
+    have hj' : j < (chunks tf (addRows (r0 :: rs))).length := by
+      rw [hrow, List.length_map] at hj; exact hj
+    have hjn : j < n / tf := by rw [← hshape]; exact hj
+    have e : ((blockReduce img pf tf)[i])[j] = sumPix ((chunks tf (addRows (r0 :: rs)))[j]) := by
+      simp only [hrow, List.getElem_map]
+    have hwin : (chunks tf (addRows (r0 :: rs)))[j] ≠ [] := by
+      rw [hchunk j hj']
+      intro hnil
+      have hlen' := congrArg List.length hnil
+      simp only [List.length_take, List.length_drop, hlen, List.length_nil] at hlen'
+      have : j * tf + tf ≤ n := by
+        have := Nat.div_mul_le_self n tf
+        have : (j + 1) * tf ≤ n / tf * tf := Nat.mul_le_mul_right tf (by omega)
+        rw [Nat.add_mul] at this; omega
+      omega
+    have key : ∀ {R : Int → Int → Prop} {g : Pix → Int} {op : Int → Int → Int} (S : Sel R g op),
+        IsExtr R (g (((blockReduce img pf tf)[i])[j])) ((block2d (r0 :: rs) tf j).map g) := by
+      intro R g op S
+      have h1 := sumPix_extr S _ hwin
+      rw [hchunk j hj'] at h1
+      rw [e, hchunk j hj']
+      have h2 := foldl_zipWith_extr S (j * tf) tf n _ rs hrs r0 h0 []
+        (by simpa [winG, addRows] using h1)
+      have e2 : addRows (r0 :: rs) = rs.foldl (fun acc x => List.zipWith Pix.add acc x) r0 := rfl
+      have e3 : ((block2d (r0 :: rs) tf j).map g) = winG g (j * tf) tf r0 ++ (rs.flatMap (winG g (j * tf) tf) ++ []) := by
+        simp only [block2d, List.flatMap_cons, List.map_append, List.map_flatMap, List.append_nil]; rfl
+      rw [e3, e2]; exact h2
+    exact ⟨key selMin, key selMax⟩
+
+/-- non-vacuity of `down_entry_sum` / `down_entry_timestamps`: binning the two pixel rows of `exKymo` -/
+example : blockReduce exKymo.img 2 1 = [[⟨5, 100, 130⟩, ⟨7, 200, 230⟩, ⟨9, 300, 330⟩]] := by decide +kernel
+
 end Verif.C06
